@@ -2,7 +2,7 @@
    Only statements here; proofs are [exact <lemma of Net/Proofs2.v>]. *)
 From Coq Require Import List NArith ZArith Permutation.
 From SF Require Import Base.Str Net.Model Net.Util Net.Proofs Net.Proofs2.
-From SF Require Tags.Model Gather.Model Gather.Proofs Loop.Model Loop.Proofs Net.Contracts Net.ContractsComb Net.MixedModel Net.MixedProofs Net.MixedProofs2.
+From SF Require Tags.Model Gather.Model Gather.Proofs Loop.Model Loop.Proofs Net.Contracts Net.ContractsComb Net.MixedModel Net.MixedProofs Net.MixedProofs2 Net.MixedInst Net.SGNet Net.Contracts2.
 Import ListNotations.
 Local Open Scope string_scope. Local Open Scope list_scope.
 
@@ -89,6 +89,41 @@ Theorem C05_mixed_bags_partial :
                     (Net.MixedModel.mcontent T spec outs win specs st2 p).
 Proof. exact Net.MixedProofs2.mixed_bags. Qed.
 
+(* ---- scatter -> transform -> gather, operationally, with NO hypothesis on the steps: ScatterStep, a one-input
+   tag-preserving Transformer f and GatherStep as log machines (GatherStep read off the C01 model).  Input: the list
+   token (render t, vs), vs non-empty.  For EVERY execution (any interleaving of the arrivals at the three steps,
+   in particular the size token reaching the gather before, between or after the elements, and either termination
+   token last) that ends with every step terminated, the gather's output port carries exactly
+       ListToken(tag, [f(e_0), ..., f(e_{n-1})])  — the transformed elements in the original order —
+   followed by TerminationToken(COMPLETED).  Hence any two fully terminated executions deliver EQUAL lists.
+   (Proof: log invariants of the network + the shape of a two-port log + C01's roundtrip theorem.)
+   _partial: one transformer, one scattered list, vs <> [] (with an empty list the termination tokens are SKIPPED and
+   C01's statement, which fixes them to COMPLETED, does not apply); the dot-product stage of the coordinator's
+   scatter -> (dot product) -> transform -> gather is NOT in this network: Comb.Model and Gather.Model use different
+   token types (C04_contract_combinator covers combinator networks on their own). *)
+Theorem C05_scatter_gather_outputs :
+  forall (t : Tags.Model.tag) (vs : list Gather.Model.tok) (f : Gather.Model.tok -> Gather.Model.tok),
+    t <> [] -> vs <> [] -> (forall x, Gather.Model.tag_of (f x) = Gather.Model.tag_of x) ->
+    forall ch st,
+      Net.MixedModel.mexec Gather.Model.tok Net.MixedInst.mspec Net.MixedInst.ms_ins Net.MixedInst.ms_outs
+        Net.MixedInst.ms_done Net.MixedInst.ms_accept (Net.SGNet.sg_win t vs) (Net.SGNet.sg_specs f)
+        (Net.MixedModel.minit Gather.Model.tok Net.MixedInst.mspec (Net.SGNet.sg_specs f)) ch = Some st ->
+      Net.MixedModel.all_done Gather.Model.tok Net.MixedInst.mspec Net.MixedInst.ms_done (Net.SGNet.sg_specs f) st ->
+      Net.MixedModel.mcontent Gather.Model.tok Net.MixedInst.mspec Net.MixedInst.ms_outs
+        (Net.SGNet.sg_win t vs) (Net.SGNet.sg_specs f) st (SOut 2 0) =
+      [Net.MixedModel.D (Gather.Model.ListTok (Tags.Model.render t)
+                           (map f (Gather.Model.scatter_elems (Tags.Model.render t) vs)));
+       Net.MixedModel.E COMPLETED].
+Proof. exact Net.SGNet.sg_outputs. Qed.
+
+(* GatherStep never terminates early: if it has terminated, the termination tokens of both ports are among its
+   arrivals (converse of C04_contract_gather); this is hypothesis (b) of C05_mixed_bags_partial for GatherStep *)
+Theorem C05_gather_terminates_only_after_both : forall depth arr,
+  Gather.Model.gfinal (Gather.Model.gather_run depth arr) <> None ->
+  (exists s1, In (Gather.Model.OnTerm Gather.Model.SizeP s1) arr) /\
+  (exists s2, In (Gather.Model.OnTerm Gather.Model.ElemP s2) arr).
+Proof. exact Net.Contracts2.gather_terminates_only_after_both. Qed.
+
 (* ---- order-insensitivity of the merge-style steps, from their own proved models (each in its model's token
    type).  These are the instances of the hypothesis [insensitive] of C05_bags_determinate_partial that are
    theorems; what is still ASSUMED there: the embedding of these models' arrival lists into Net.Model histories,
@@ -152,3 +187,5 @@ Print Assumptions C05_contract_loop_output.
 Print Assumptions C05_contract_dot_flat.
 Print Assumptions C05_contract_cartesian.
 Print Assumptions C05_mixed_bags_partial.
+Print Assumptions C05_scatter_gather_outputs.
+Print Assumptions C05_gather_terminates_only_after_both.
